@@ -31,6 +31,49 @@ Proof. intros raw. split; [apply compact_roundtrip_l|apply compact_stored_once].
 Theorem compact_checker_sound : forall (A B : Type) (d : cds A B), compact_okb d = true <-> compact_ok d.
 Proof. intros A B. exact compact_okb_iff_l. Qed.
 
+(* ---- the first sentence as ONE law per group (consistent raw stored idx, Model/C13_compact.v): the compact dataset holds
+   exactly the collocated points, each once (NoDup stored, In v stored <-> In v raw), Collocations/pairs has one entry per
+   raw pair, holds valid indices, every stored point takes part in a pair (row_ok), and pair k still names the original
+   point raw[k].  The compaction of _create_return establishes it for every row of raw pairs -- whatever the order in
+   which the points are met and however few points of a long dataset are collocated. *)
+Theorem compact_is_consistent : forall raw, consistent raw (fst (compact raw)) (snd (compact raw)).
+Proof. exact compact_is_consistent_l. Qed.
+
+(* the order of the stored points is free (they are a rearrangement of the distinct collocated points), but the pairs are
+   determined by it ... *)
+Theorem consistent_pairs_determined : forall raw stored idx idx',
+  consistent raw stored idx -> consistent raw stored idx' -> idx = idx'.
+Proof. exact consistent_unique. Qed.
+
+Theorem consistent_stored_points : forall raw stored idx,
+  consistent raw stored idx -> Permutation stored (uniq raw) /\ length stored = length (uniq raw).
+Proof. exact consistent_perm. Qed.
+
+(* ... and two pairs share a stored point exactly when they share the original point (no two collocated points are merged
+   into one stored point) *)
+Theorem consistent_no_merged_points : forall raw stored idx j k,
+  consistent raw stored idx -> j < length raw -> k < length raw ->
+  (nth j idx 0 = nth k idx 0 <-> nth j raw 0 = nth k raw 0).
+Proof. exact consistent_same_point. Qed.
+
+(* the boolean tests that the correspondence applies to what Collocator.collocate returned decide the law *)
+Theorem consistent_checker_sound : forall raw stored idx, consistentb raw stored idx = true <-> consistent raw stored idx.
+Proof. exact consistentb_iff. Qed.
+
+Theorem compaction_check_sound : forall rawp raws idp ids newp news,
+  check_compaction rawp raws idp ids newp news = (true, true, true) ->
+  consistent (ns rawp) (ns idp) (ns newp) /\ consistent (ns raws) (ns ids) (ns news) /\ length newp = length news.
+Proof. exact check_compaction_sound. Qed.
+
+(* the dataset built by _create_return from the raw pairs and the two original datasets is compact, and it expands to the
+   raw pairs carrying the original data: row k = (primary data at rawp[k], secondary data at raws[k]) *)
+Theorem create_return_expands_to_raw_pairs :
+  forall (A B : Type) (da : A) (db : B) rawp raws (pdata : list A) (sdata : list B),
+  length rawp = length raws ->
+  compact_ok (create_return da db rawp raws pdata sdata) /\
+  expand da db (create_return da db rawp raws pdata sdata) = combine (gather da rawp pdata) (gather db raws sdata).
+Proof. intros A B. exact create_return_l. Qed.
+
 (* ---- _rows_for_secondaries: the row of pair k is the number of earlier pairs with the same reference
    point.  Guard: the indices are in range of the counter array (np.zeros(primary.size)). *)
 Theorem rows_are_running_counts : forall prim,
@@ -165,6 +208,61 @@ Theorem collapse_custom_keeps_defaults :
      = Some (map (fun col => g (map (cell_view f) col)) (collapse_model d refrow otherrow vals))).
 Proof. intros A. exact collapse_custom_l. Qed.
 
+(* ---- arbitrary custom functions, several variables.  vars = the variables of the non-reference group (name -> one value
+   per stored point), custom = the functions handed to collapse; g : list (option R) -> out is ANY function.  The value
+   stored for (variable v, function name, reference point c) is g of the NaN-padded column of v: lane f of the values of v
+   at the partner points of c in the order of the pair list, then NaN up to the largest number of partners
+   (padded_column) -- for every variable: it does not depend on what else is in the dataset. *)
+Theorem collapse_custom_function :
+  forall (A : Type) (f : A -> option R) (d : A) refrow otherrow n (vars : dict (list A)) (custom : dict collapser)
+         v vals name (g : collapser) c,
+  length refrow = length otherrow -> row_ok n refrow -> c < n ->
+  lookup v vars = Some vals -> lookup name custom = Some g ->
+  field_of v name c (collapse_vars f d refrow otherrow vars custom)
+    = Some (g (map f (gather d (partner_points refrow otherrow c) vals)
+               ++ repeat None (S (list_max (rows_for refrow)) - cnt c refrow))) /\
+  (forall vars', lookup v vars' = Some vals ->
+     field_of v name c (collapse_vars f d refrow otherrow vars' custom)
+     = field_of v name c (collapse_vars f d refrow otherrow vars custom)).
+Proof. intros A. exact collapse_custom_function_l. Qed.
+
+(* a custom function that ignores NaN returns its value on the non-NaN values of the partner points *)
+Theorem collapse_custom_nan_ignoring :
+  forall (A : Type) (f : A -> option R) (d : A) refrow otherrow n (vars : dict (list A)) (custom : dict collapser)
+         v vals name (g : collapser) (g' : list R -> out) c,
+  length refrow = length otherrow -> row_ok n refrow -> c < n ->
+  lookup v vars = Some vals -> lookup name custom = Some g -> (forall l, g l = g' (somes l)) ->
+  field_of v name c (collapse_vars f d refrow otherrow vars custom)
+    = Some (g' (somes (map f (gather d (partner_points refrow otherrow c) vals)))).
+Proof. intros A. exact collapse_custom_nan_ignoring_l. Qed.
+
+(* functions that return a row of the matrix (m[k]: a view in numpy): slot k holds the value of the (k+1)-th partner in the
+   order of the pair list (slot 0 = "first": the partner of the pair with the lowest position; there always is one), NaN
+   when the reference point has fewer partners *)
+Theorem collapse_slot_function :
+  forall (A : Type) (f : A -> option R) (d : A) refrow otherrow n (vars : dict (list A)) (custom : dict collapser)
+         v vals name k c,
+  length refrow = length otherrow -> row_ok n refrow -> c < n ->
+  lookup v vars = Some vals -> lookup name custom = Some (slot k) ->
+  let pp := partner_points refrow otherrow c in
+  field_of v name c (collapse_vars f d refrow otherrow vars custom)
+    = Some (Fl (if k <? length pp then f (nth (nth k pp 0) vals d) else None)) /\
+  length pp = cnt c refrow /\ 0 < length pp.
+Proof. intros A. exact collapse_slot_l. Qed.
+
+(* m[-1]: a value only for the reference points with the largest number of partners (their last partner), NaN otherwise *)
+Theorem collapse_last_slot_function :
+  forall (A : Type) (f : A -> option R) (d : A) refrow otherrow n (vars : dict (list A)) (custom : dict collapser)
+         v vals name c,
+  length refrow = length otherrow -> row_ok n refrow -> c < n ->
+  lookup v vars = Some vals -> lookup name custom = Some last_slot ->
+  let pp := partner_points refrow otherrow c in
+  let h := S (list_max (rows_for refrow)) in
+  length pp <= h /\
+  field_of v name c (collapse_vars f d refrow otherrow vars custom)
+    = Some (Fl (if length pp =? h then f (nth (last pp 0) vals d) else None)).
+Proof. intros A. exact collapse_last_slot_l. Qed.
+
 (* ---- expand: one row per pair with the primary and the secondary value of that pair *)
 Theorem expand_rows : forall (A B : Type) (da : A) (db : B) (d : cds A B) k,
   length (prow d) = length (srow d) -> k < length (prow d) ->
@@ -236,10 +334,48 @@ Example nonvacuous_names :
   collapser_names [] = default_names.
 Proof. repeat split. Qed.
 
+(* ---- non-vacuity of the custom-function theorems: two variables of one shape, view-returning functions first / slot 1 /
+   last; every variable shows its own values *)
+Example nonvacuous_views :
+  let refrow := [0; 0; 1; 2; 1; 0] in
+  let otherrow := [0; 1; 0; 0; 2; 2] in
+  let vars := [("t"%string, [Some 5; Some 6; Some 7]%R); ("p"%string, [Some 1; None; Some 3]%R)] in
+  let custom := [("first"%string, slot 0); ("mid"%string, slot 1); ("last"%string, last_slot)] in
+  let res := collapse_vars (fun a : option R => a) None refrow otherrow vars custom in
+  length refrow = length otherrow /\ row_ok 3 refrow /\
+  map (partner_points refrow otherrow) [0; 1; 2] = [[0; 1; 2]; [0; 2]; [0]] /\
+  S (list_max (rows_for refrow)) = 3 /\
+  field_of "t" "first" 0 res = Some (Fl (Some 5%R)) /\ field_of "p" "first" 0 res = Some (Fl (Some 1%R)) /\
+  field_of "t" "first" 1 res = Some (Fl (Some 5%R)) /\ field_of "t" "first" 2 res = Some (Fl (Some 5%R)) /\
+  field_of "t" "mid" 0 res = Some (Fl (Some 6%R)) /\ field_of "p" "mid" 0 res = Some (Fl None) /\
+  field_of "t" "mid" 1 res = Some (Fl (Some 7%R)) /\ field_of "t" "mid" 2 res = Some (Fl None) /\
+  field_of "t" "last" 0 res = Some (Fl (Some 7%R)) /\ field_of "p" "last" 0 res = Some (Fl (Some 3%R)) /\
+  field_of "t" "last" 1 res = Some (Fl None) /\
+  field_of "p" "number" 0 res = Some (Cnt 2).
+Proof. exact nonvacuous_views_l. Qed.
+
+(* ---- non-vacuity of the consistency law: sparse matches of a long track met in non-ascending order; the positions in the
+   SORTED points applied to points stored in order of first appearance are rejected *)
+Example nonvacuous_consistent :
+  let raw := [480; 450; 470; 450; 300] in
+  compact raw = ([480; 450; 470; 300], [0; 1; 2; 1; 3]) /\
+  consistent raw [480; 450; 470; 300] [0; 1; 2; 1; 3] /\
+  consistent raw [300; 450; 470; 480] [3; 1; 2; 1; 0] /\
+  ~ consistent raw [480; 450; 470; 300] [3; 1; 2; 1; 0] /\
+  consistentb raw [480; 450; 470; 300] [4; 4; 4; 4; 0] = false.
+Proof. exact nonvacuous_consistent_l. Qed.
+
 Print Assumptions compact_valid.
 Print Assumptions compact_surjective.
 Print Assumptions compact_same_points.
 Print Assumptions compact_checker_sound.
+Print Assumptions compact_is_consistent.
+Print Assumptions consistent_pairs_determined.
+Print Assumptions consistent_stored_points.
+Print Assumptions consistent_no_merged_points.
+Print Assumptions consistent_checker_sound.
+Print Assumptions compaction_check_sound.
+Print Assumptions create_return_expands_to_raw_pairs.
 Print Assumptions rows_are_running_counts.
 Print Assumptions bins_exact.
 Print Assumptions bins_height.
@@ -253,6 +389,10 @@ Print Assumptions collapse_pair_order_invariant.
 Print Assumptions collapse_number_by_mask.
 Print Assumptions collapse_call_independent.
 Print Assumptions collapse_custom_keeps_defaults.
+Print Assumptions collapse_custom_function.
+Print Assumptions collapse_custom_nan_ignoring.
+Print Assumptions collapse_slot_function.
+Print Assumptions collapse_last_slot_function.
 Print Assumptions expand_rows.
 Print Assumptions expand_length.
 Print Assumptions expand_concat.
